@@ -171,6 +171,7 @@ META_SEEDS = [
     ['SUMIFS', '(', 'A1:A2', ',', 'B1:B2', ',', '5', ')'], ['MAX', '(', 'A1', ',', 'B1', ',', '4', ')'],
     ['LEFT', '(', '"hello"', ',', '2', ')', '&', 'MID', '(', '"hello"', ',', '2', ',', '3', ')'],
     ['COUNTIFS', '(', 'A1:B2', ',', '">4"', ')'], ['AND', '(', 'A1', '>', '1', ',', 'B1', '<', '9', ')'],
+    ['IF', '(', 'TRUE', '(', ')', ',', '1', ',', 'FALSE', '(', ')', ')'],          # the call form of the truth values
 ]
 
 
